@@ -23,6 +23,7 @@ func (r *Rng) Intn(n int) int {
 }
 func (r *Rng) Chance(num, den int) bool { return r.Intn(den) < num }
 func (r *Rng) Pick(xs []string) string   { return xs[r.Intn(len(xs))] }
+func (r *Rng) pickByte(s string) byte     { return s[r.Intn(len(s))] }
 
 // Fork derives an independent generator for case i (so a case is replayable from (seed, index)).
 func (r *Rng) Fork(i int) *Rng { return NewRng(r.s ^ (uint64(i)+1)*0xD6E8FEB86659FD93) }
@@ -325,9 +326,9 @@ func (r *Rng) raw() string {
 		case 0:
 			b[i] = byte(r.Intn(256))
 		case 1:
-			b[i] = ":/?#@[]\\%.| \t\n"[r.Intn(15)]
+			b[i] = r.pickByte(":/?#@[]\\%.| \t\n")
 		default:
-			b[i] = "ahtp0189xX.fF-+_"[r.Intn(16)]
+			b[i] = r.pickByte("ahtp0189xX.fF-+_")
 		}
 	}
 	return string(b)
